@@ -24,7 +24,7 @@ def run(tier):
     chk.add_tlc(rn, "nested dual numbers refine layer A symbolically: layer B instantiated over layer B (13 scalar type pairs of total "
                     "order <= 4) against Leibniz / Faa di Bruno / the implicit quotient on the flattened jet; tower of towers for the "
                     "chain rule; from_inner; NDERIV = sum over levels")
-    if rn.violated or rn.distinct < 90:
+    if rn.violated or rn.distinct < 450:
         chk.model_violation(rn, "RefineN")
     chk.add_tlc(vw, "correspondence table: every read (type, seeding, location) = formal partial derivative of the generic polynomial, "
                     "proved on the flattened layer-A jets; NDERIV = sum over levels")
